@@ -64,7 +64,7 @@ func (x *seqInst) Target() any            { return x.l }
 func (x *seqInst) Mask() reflect.Type     { return nil }
 func (x *seqInst) Mutates(op string) bool { return seqMut[op] }
 
-var seqMut = map[string]bool{"Add": true, "Append": true, "Prepend": true, "Insert": true, "Remove": true,
+var seqMut = map[string]bool{"FromJSON": true, "Add": true, "Append": true, "Prepend": true, "Insert": true, "Remove": true,
 	"Set": true, "Swap": true, "Sort": true, "Clear": true, "New": true}
 
 func (x *seqInst) Observe() Ev {
@@ -122,6 +122,8 @@ func (x *seqInst) Do(c Call) []any {
 		return []any{firstLine(l.String())}
 	case "New":
 		x.l = newList(x.kind, append([]int(nil), c.Vs...)...)
+	case "FromJSON":
+		return []any{l.(jsonable).FromJSON(mustJSON(ints(c.Vs))) == nil}
 	default:
 		die("seq: unknown op %s", c.Op)
 	}
@@ -183,6 +185,12 @@ func (u *seqUniverse) Calls(x Inst) []Call {
 		for _, t := range tl {
 			cs = append(cs, Call{Op: "Add", Vs: t}, Call{Op: "Insert", I: n / 2, Vs: t})
 		}
+		big := make([]int, 16) // a long argument list / a long load: capacity 32 in one step
+		for i := range big {
+			big[i] = 1
+		}
+		cs = append(cs, Call{Op: "Add", Vs: big}, Call{Op: "Add", Vs: append(append([]int{}, big...), big...)},
+			Call{Op: "FromJSON", Vs: big[:5]}, Call{Op: "FromJSON", Vs: []int{}}, Call{Op: "Insert", I: 1, Vs: big[:9]})
 		cs = append(cs, Call{Op: "Remove", I: 0}, Call{Op: "Remove", I: n - 1}, Call{Op: "Remove", I: n / 2},
 			Call{Op: "Insert", I: 0, Vs: []int{1}}, Call{Op: "Insert", I: n, Vs: []int{1}}, Call{Op: "Set", I: n, V: 1},
 			Call{Op: "Clear"}, Call{Op: "Sort", Cmp: "nat"}, Call{Op: "Values"})
@@ -210,7 +218,8 @@ func (u *seqUniverse) Calls(x Inst) []Call {
 		cs = append(cs, Call{Op: "Sort", Cmp: c})
 	}
 	cs = append(cs, Call{Op: "Clear"}, Call{Op: "Size"}, Call{Op: "Empty"}, Call{Op: "Values"}, Call{Op: "String"},
-		Call{Op: "Contains", Vs: []int{}}, Call{Op: "IndexOf", V: 99})
+		Call{Op: "Contains", Vs: []int{}}, Call{Op: "IndexOf", V: 99},
+		Call{Op: "FromJSON", Vs: []int{}}, Call{Op: "FromJSON", Vs: []int{2, 0}}, Call{Op: "FromJSON", Vs: []int{1, 1, 0}})
 	for _, v := range u.vals {
 		cs = append(cs, Call{Op: "IndexOf", V: v}, Call{Op: "Contains", Vs: []int{v}}, Call{Op: "Contains", Vs: []int{v, 99}})
 		for _, w := range u.vals {
@@ -302,7 +311,7 @@ func (u *seqRandom) Rand(x Inst, r *rand.Rand) Call {
 	case p < 13:
 		return Call{Op: "Swap", I: hostileIndex(r, n), J: hostileIndex(r, n)}
 	case p < 14:
-		return Call{Op: "Sort", Cmp: []string{"nat", "rev", "half"}[r.Intn(3)]}
+		return Call{Op: "Sort", Cmp: []string{"nat", "rev", "half", "natx", "revx"}[r.Intn(5)]}
 	case p < 15:
 		if r.Intn(4) == 0 {
 			return Call{Op: "Clear"}
@@ -380,7 +389,7 @@ func (x *queInst) Cfg() Ev {
 func (x *queInst) Target() any        { return x.q }
 func (x *queInst) Mask() reflect.Type { return nil }
 func (x *queInst) Mutates(op string) bool {
-	return op == "Push" || op == "Pop" || op == "Enqueue" || op == "Dequeue" || op == "Clear"
+	return op == "Push" || op == "Pop" || op == "Enqueue" || op == "Dequeue" || op == "Clear" || op == "FromJSON"
 }
 
 func (x *queInst) Observe() Ev {
@@ -422,6 +431,8 @@ func (x *queInst) Do(c Call) []any {
 		return []any{ints(q.Values())}
 	case "String":
 		return []any{firstLine(q.String())}
+	case "FromJSON":
+		return []any{q.(jsonable).FromJSON(mustJSON(ints(c.Vs))) == nil}
 	default:
 		die("que: unknown op %s", c.Op)
 	}
@@ -454,6 +465,15 @@ func (u *queUniverse) Calls(x Inst) []Call {
 		Call{Op: "Values"}, Call{Op: "String"})
 	if u.kind == "circularbuffer" {
 		cs = append(cs, Call{Op: "Full"})
+	}
+	// loads: empty, shorter than, exactly and longer than the capacity
+	cs = append(cs, Call{Op: "FromJSON", Vs: []int{}}, Call{Op: "FromJSON", Vs: []int{2, 0}}, Call{Op: "FromJSON", Vs: []int{1, 2, 0}})
+	if u.kind == "circularbuffer" {
+		full := make([]int, u.cap)
+		for i := range full {
+			full[i] = i % 3
+		}
+		cs = append(cs, Call{Op: "FromJSON", Vs: full}, Call{Op: "FromJSON", Vs: append([]int{2}, full...)})
 	}
 	return cs
 }
